@@ -105,11 +105,11 @@ let run (t : string list) : string =
       let f = TimeSites.site_filter TimeSites.FDateTime v in
       let clamp z = let x = zt_of_z z in if Z.sign x < 0 then Z.zero else x in
       let cands = [Z.zero]
-        @ (match p_dt with TimeSites.PNum z -> [clamp z] | _ -> [])
-        @ (match p_d with TimeSites.PNum z -> [clamp z] | _ -> [])
-        @ (match w with TimeSites.CNum z -> [clamp z] | _ -> [])
-        @ (match sn with TimeSites.SinceNum z -> [clamp z] | _ -> [])
-        @ (match f with TimeSites.SInt z -> [clamp z] | _ -> []) in
+        @ (match p_dt with TimeSites.PNum z -> [clamp z; zt_of_z z] | _ -> [])
+        @ (match p_d with TimeSites.PNum z -> [clamp z; zt_of_z z] | _ -> [])
+        @ (match w with TimeSites.CNum z -> [clamp z; zt_of_z z] | _ -> [])
+        @ (match sn with TimeSites.SinceNum z -> [clamp z; zt_of_z z] | _ -> [])
+        @ (match f with TimeSites.SInt z -> [clamp z; zt_of_z z] | _ -> []) in
       let cands = Stdlib.List.sort_uniq Z.compare cands in
       let zones = Stdlib.List.mapi (fun i c -> { TimeSites.z_id = n_of_int i; TimeSites.z_ts = [z_of_zt c] }) cands in
       let pr = match TimeSites.prune false TimeSites.OEq (TimeSites.SUtf8 lit) zones with
